@@ -348,7 +348,7 @@ static void ComputeMacroStrings(PInputTag Tag) {
         Tag->AllArgs[0] = '\0';
         Lauf            = Tag->Params;
         while (Lauf) {
-            if (Tag->AllArgs[0] != '\0') {
+            if (Lauf != Tag->Params) {
                 strmaxcat(Tag->AllArgs, ",", STRINGSIZE);
             }
             strmaxcat(Tag->AllArgs, Lauf->Content, STRINGSIZE);
